@@ -31,7 +31,7 @@ for p in props:
     })
 man = {
     "version": 1,
-    "setup_cmd": "cd lean && lake build lasio_driver && (lake build " + " ".join("LasioProofs.Props." + c["property_id"] for c in checks) + " || true) && cd .. && ./check --selftest",
+    "setup_cmd": "cd lean && lake build lasio_driver && (lake build " + " ".join(dict.fromkeys(MODS)) + " || true) && cd .. && ./check --selftest",
     "hooks": {"guard": "KINVERARITY1_LASIO_VERIF", "enable": "none - all instrumentation is in-process wrapping by the harness; no hook commits in /repo",
               "baseline_off_cmd": base["cmd"], "source_commits": [], "add_only": True},
     "engines": [{"name": "lean-model+correspondence", "path": "lean/ + harness/", "serves_properties": [c["property_id"] for c in checks],
